@@ -13,9 +13,11 @@ Definition known_unprotected : list string :=
     "oidc.DefaultJWKSProvider.cache";
     (* the health server's listener, set by Serve before it blocks; read by nothing else while serving *)
     "server.healthServer.l";
-    (* OPEN FINDINGS (known_findings.json): the shared configuration object and the pooled TLS configuration are
-       modified in place while requests read them *)
+    (* written once per configuration object under wellKnownMu, which every handler creation takes before the
+       configuration is read (initialisation published by the mutex, since fix 62ac8e2); the reads are not under it *)
     "oidcv1.OIDCConfig.AuthorizationUri"; "oidcv1.OIDCConfig.TokenUri"; "oidcv1.OIDCConfig.JwksConfig";
+    (* OPEN FINDINGS (known_findings.json): the client secret of the shared configuration object and the pooled TLS
+       configuration are modified in place while requests read them *)
     "oidcv1.OIDCConfig.ClientSecretConfig";
     "tls.Config.RootCAs" ].
 
